@@ -3,6 +3,7 @@ package core
 import (
 	"context"
 	"encoding/json"
+	"errors"
 	"fmt"
 	"runtime"
 	"sync/atomic"
@@ -28,7 +29,12 @@ type c13Case struct {
 	PC      uint16   `json:"pc"`
 	Instant string   `json:"instant"` // pre | hook | timer | timeout | never
 	N       int      `json:"n"`       // hook: access count; timer/timeout: microseconds
+	// Cause: the context carries a cancellation cause (WithCancelCause / WithTimeoutCause); Run must still return the
+	// context's error (ctx.Err()), not the cause
+	Cause bool `json:"cause,omitempty"`
 }
+
+var errC13Cause = errors.New("operator pressed stop")
 
 type c13Rig struct {
 	base  [65536]uint8
@@ -140,12 +146,22 @@ func (r *c13Rig) runCtx(c *c13Case, parent context.Context) c13Outcome {
 	switch c.Instant {
 	case "timeout":
 		d := time.Duration(c.N) * time.Microsecond
-		ctx, cancel = context.WithTimeout(parent, d)
+		if c.Cause {
+			ctx, cancel = context.WithTimeoutCause(parent, d, errC13Cause)
+		} else {
+			ctx, cancel = context.WithTimeout(parent, d)
+		}
 		atomic.StoreInt64(&cancelledAt, time.Now().Add(d).UnixNano())
 	case "never":
 		ctx, cancel = parent, func() {}
 	default:
-		ctx, cancel = context.WithCancel(parent)
+		if c.Cause {
+			var cc context.CancelCauseFunc
+			ctx, cc = context.WithCancelCause(parent)
+			cancel = func() { cc(errC13Cause) }
+		} else {
+			ctx, cancel = context.WithCancel(parent)
+		}
 	}
 	defer cancel()
 	var timer *time.Timer
@@ -374,6 +390,7 @@ func TestC13(t *testing.T) {
 				}
 				c.Instant = rapid.SampledFrom([]string{"pre", "hook", "hook", "timer", "timeout"}).Draw(t, "instant")
 			}
+			c.Cause = c.Instant != "never" && rapid.IntRange(0, 3).Draw(t, "cause") == 0
 			switch c.Instant {
 			case "hook":
 				c.N = rapid.IntRange(1, 3000).Draw(t, "hookAt")
@@ -390,6 +407,9 @@ func TestC13(t *testing.T) {
 				violation(t, "C13", "cancel", c, "context error, whole Steps, bounded delay", o.msg)
 			}
 			col.Label("instant:" + c.Instant)
+			if c.Cause {
+				col.Label("context-with-cause")
+			}
 			switch o.err {
 			case nil:
 				col.Label("return:halt")
